@@ -82,6 +82,14 @@ func genConcBase(r *simrt.Rand, gc bool) *Plan {
 	p.Cfg.Flusher = r.Chance(0.8)
 	p.Cfg.SyncMs = []int{1, 5, 20, 100, 1000}[r.Intn(5)]
 	p.Cfg.SyncOnFlush = r.Chance(0.15)
+	if r.Chance(0.08) {
+		// aged store: file number * limit beyond 32 bits (see StoreCfg.Aged)
+		m := p.Cfg.IndexFile
+		if p.Cfg.PrimaryFile < m {
+			m = p.Cfg.PrimaryFile
+		}
+		p.Cfg.Aged = int((uint64(1)<<32)/uint64(m)) + r.Intn(3)
+	}
 	nk := 2 + r.Intn(5)
 	p.Keys = GenKeys(r, nk, false)
 	// concentrate keys in one or two buckets: overwrite the first digest byte
